@@ -12,7 +12,7 @@ REQUIRED_MONITORS = ["labels@SC_apply(function)", "labels@SC_apply(inside SSIcov
                      "labels@SC_apply(inside SSIcov_MS.run)", "labels@SC_apply(inside pLSCF_MS.run)", "purity@SC_apply", "result.Lab==labels of final tables"]
 ALL_STATES = ["stable", "fails fn only", "fails xi only", "fails MAC only", "fails several", "prev column empty", "NaN pole", "below ordmin", "first column",
               "above ordmax", "nearest neighbour is not the same row"]
-REQUIRED_STATES = ["run with covariance criterion", "stable", "fails fn only", "fails xi only", "fails MAC only", "prev column empty", "NaN pole", "below ordmin", "first column",
+REQUIRED_STATES = ["ordmin = ordmax", "tolerances 1e-6..1e-7 on small damping / frequency", "run with covariance criterion", "stable", "fails fn only", "fails xi only", "fails MAC only", "prev column empty", "NaN pole", "below ordmin", "first column",
                    "nearest neighbour is not the same row"]
 RULE = ("pole tables up to 40 orders x 12 rows with random / structured NaN patterns, per-column row shuffles, duplicates and close frequencies, "
         "complex shapes and perturbations straddling each tolerance; every cell's label compared with an independent model (nearest finite "
@@ -117,12 +117,21 @@ def make_table(rng, structured):
         k = int(rng.integers(0, nr - 1))
         base[k + 1] = base[k] * (1 + rng.choice([0.0, 1e-6, 1e-3]))
     efn, exi, ephi = float(rng.choice([0.001, 0.01, 0.05])), float(rng.choice([0.01, 0.05, 0.3])), float(rng.choice([0.001, 0.03, 0.2]))
+    xi0 = 0.02
+    make_table.tight = False
+    if structured and rng.random() < 0.25:
+        # tight tolerances on small quantities (lightly damped, low-frequency poles repeating to ~1e-6 between orders): the criteria are
+        # relative differences, an absolute slack of the size of a default atol would show here
+        efn, exi = float(rng.choice([1e-6, 1e-7])), float(rng.choice([1e-6, 1e-7]))
+        xi0 = float(rng.choice([0.002, 0.0005, 0.02]))
+        base = base * float(rng.choice([1e-3, 1e-2, 1.0]))
+        make_table.tight = True
     if structured:
         # perturbations chosen relative to the tolerances: well inside / straddling / outside
         lev = rng.choice([0.2, 0.9, 1.1, 3.0], size=(nr, no))
         Fn = base[:, None] * (1 + efn * lev * rng.choice([-1, 1], size=(nr, no)) * rng.uniform(0.5, 1, (nr, no)))
         lev2 = rng.choice([0.2, 0.9, 1.1, 3.0], size=(nr, no))
-        Xi = 0.02 * (1 + exi * lev2 * rng.choice([-1, 1], size=(nr, no)) * rng.uniform(0.3, 1, (nr, no)))
+        Xi = xi0 * (1 + exi * lev2 * rng.choice([-1, 1], size=(nr, no)) * rng.uniform(0.3, 1, (nr, no)))
         P0 = rng.standard_normal((nr, nch)) + 1j * rng.standard_normal((nr, nch))
         lev3 = rng.choice([0.2, 0.9, 1.1, 3.0], size=(nr, no, 1))
         Phi = P0[:, None, :] + np.sqrt(ephi * lev3) * 0.7 * (rng.standard_normal((nr, no, nch)) + 1j * rng.standard_normal((nr, no, nch))) / np.sqrt(2)
@@ -131,7 +140,7 @@ def make_table(rng, structured):
         Xi = 0.02 * (1 + rng.choice([1e-3, 0.03, 0.2], size=(nr, no)) * rng.standard_normal((nr, no)))
         P0 = rng.standard_normal((nr, nch)) + 1j * rng.standard_normal((nr, nch))
         Phi = P0[:, None, :] + rng.choice([1e-3, 0.1, 0.5], size=(nr, no, 1)) * (rng.standard_normal((nr, no, nch)) + 1j * rng.standard_normal((nr, no, nch)))
-    Xi = np.abs(Xi) + 1e-4
+    Xi = np.abs(Xi) + (0.0 if make_table.tight else 1e-4)
     mask = rng.random((nr, no)) < rng.choice([0, 0.2, 0.6])
     if rng.random() < 0.4:
         mask[:, int(rng.integers(0, no))] = True
@@ -155,6 +164,12 @@ def run_tables(ctx, rng, structured):
     ordmax_full = (no - 1) * step
     ordmax = ordmax_full if rng.random() < 0.7 else int(rng.integers(0, no)) * step
     ordmin = int(rng.integers(0, ordmax // step + 1)) * step
+    if rng.random() < 0.1:
+        ordmin = ordmax  # the single requested order still has a previous order to be compared with
+    if ordmin == ordmax and ordmax >= step:
+        ctx.state("ordmin = ordmax")
+    if make_table.tight:
+        ctx.state("tolerances 1e-6..1e-7 on small damping / frequency")
     args = (Fn, Xi, Phi, ordmin, ordmax, step, efn, exi, ephi)
     copies = (Fn.copy(), Xi.copy(), Phi.copy())
     L = G_.SC_apply(*args)
@@ -185,8 +200,8 @@ def run_inside(ctx, rng):
     nch = int(rng.integers(4, 6))
     data, *_ = gen.sim_response(rng, nch, int(rng.integers(3000, 6000)), 100.0, m=3, complex_modes=bool(rng.integers(0, 2)))
     sc = dict(err_fn=float(rng.choice([0.005, 0.01, 0.03])), err_xi=float(rng.choice([0.05, 0.2])), err_phi=float(rng.choice([0.02, 0.05])))
-    ordmin_s = int(rng.choice([0, 0, 3, 6]))
-    ordmin_p = int(rng.choice([0, 0, 1, 2, 3]))
+    ordmin_s = int(rng.choice([0, 0, 3, 6, 18]))
+    ordmin_p = int(rng.choice([0, 0, 1, 2, 3, 7]))
     specs = [("SSIcov", SSIcov, dict(br=8, ordmax=18, ordmin=ordmin_s, sc=sc)), ("SSIdat", SSIdat, dict(br=8, ordmax=18, ordmin=ordmin_s, sc=sc)),
              ("SSIcov", SSIcov, dict(br=6, ordmax=10, ordmin=0, sc=sc, calc_unc=True, nb=10, hc=dict(conj=True, xi_max=0.1, mpc_lim=0.5, mpd_lim=0.5, cov_max=float(rng.choice([2e-4, 1e-3, 5e-3]))))),
              ("pLSCF", pLSCF, dict(ordmax=8, ordmin=ordmin_p, nxseg=256, sc=sc))]
@@ -202,13 +217,13 @@ def run_inside(ctx, rng):
         d1 = data[: len(data) // 2, :]
         d2 = data[len(data) // 2:, : nch - 1][:, ::-1]
         ref = [[0, 1], [nch - 2, nch - 3]]
-        for name, cls, kw in (("SSIcov_MS", SSIcov_MS, dict(br=8, ordmax=14, ordmin=ordmin_s, sc=sc)), ("pLSCF_MS", pLSCF_MS, dict(ordmax=6, ordmin=ordmin_p, nxseg=256, sc=sc))):
+        for name, cls, kw in (("SSIcov_MS", SSIcov_MS, dict(br=8, ordmax=14, ordmin=min(ordmin_s, 14), sc=sc)), ("pLSCF_MS", pLSCF_MS, dict(ordmax=6, ordmin=min(ordmin_p, 5), nxseg=256, sc=sc))):
             del rec[:]
             ms = MultiSetup_PreGER(100.0, [list(r) for r in ref], [d1.copy(), d2.copy()])
             alg = cls(name="a", **kw)
             ms.add_algorithms(alg)
             ms.run_all()
-            finish_run(ctx, name, alg, rec, ordmin_p if name == "pLSCF_MS" else None)
+            finish_run(ctx, name, alg, rec, min(ordmin_p, 5) if name == "pLSCF_MS" else None)
 
 
 def finish_run(ctx, name, alg, rec, plscf_ordmin):
